@@ -174,6 +174,18 @@ class CGraph:
                 raise Exception(err_str)
             # print self
 
+        # the pullbacks of buffer writes (setitem) have rolled the buffers back
+        # to their state before the write; redo the writes in forward order so
+        # that the nodes hold the values of the forward evaluation again and
+        # further reverse sweeps (e.g. to assemble a Jacobian row by row) and
+        # the user see the correct values
+        for f in self.functionList:
+            if is_set(f.setitem):
+                rhs = f.args[2]
+                if isinstance(rhs, Function):
+                    rhs = rhs.x
+                f.args[0].x[f.args[1]] = rhs
+
     def function(self, x_list):
         """ computes the function of a function y = f(x_list), where y is a scalar
         and x_list is a list or tuple of input arguments.
